@@ -15,6 +15,10 @@ import (
 
 func debugIdent(d *ssa.DebugRef) string {
 	if id, ok := d.Expr.(*ast.Ident); ok {
+		// go/ssa also records the selected field of x.f under the identifier f: that is not a local named f
+		if v, ok := d.Object().(*types.Var); ok && v.IsField() {
+			return ""
+		}
 		return id.Name
 	}
 	return ""
